@@ -157,23 +157,30 @@ def check_cigar(cols, lead_seg, tail_seg, ref_off, opt):
     if not include_term:
         idx = [i for i, r in enumerate(rows) if r[1] != -1]
         rows = rows[idx[0]: idx[-1] + 1]
-    # an intron: the first deletion run strictly inside the alignment
+    # introns: EVERY deletion run of the written part is declared an intron (one interval per run, listed in reverse
+    # order: the result must not depend on the order of the list)
     introns = ()
     if use_intron:
-        runs = [i for i, r in enumerate(rows) if r[1] == -1]
+        runs, i = [], 0
+        while i < len(rows):
+            if rows[i][1] == -1:
+                j = i
+                while j + 1 < len(rows) and rows[j + 1][1] == -1:
+                    j += 1
+                runs.append((rows[i][0], rows[j][0] + 1))
+                i = j + 1
+            else:
+                i += 1
         if not runs:
             return None
-        start = runs[0]
-        stop = start
-        while stop + 1 < len(rows) and rows[stop + 1][1] == -1:
-            stop += 1
-        introns = ((rows[start][0], rows[stop][0] + 1),)
+        # alternate between 'all runs' and 'only the first run' (a deletion next to an intron stays a deletion)
+        introns = tuple(reversed(runs)) if sum(cols) % 2 == 0 else (runs[0],)
     ops = []
     for i, r in enumerate(rows):
         if r[0] == -1:
             ops.append("I")
         elif r[1] == -1:
-            ops.append("N" if introns and introns[0][0] <= r[0] < introns[0][1] else "D")
+            ops.append("N" if any(a <= r[0] < b for a, b in introns) else "D")
         elif distinguish:
             ops.append("=" if str(ref)[r[0]] == str(seg)[r[1]] else "X")
         else:
